@@ -33,7 +33,9 @@ PROPERTY = "C17"
 LEVEL = "exploration"
 RULE = ("one run = one authorisation life cycle: an Intel-HEX signer image, an iteration (boundary and "
         "malformed values), `signapp message`, then 0..6 signing steps drawn from {key (authoriser / "
-        "stranger / same authoriser again), eth (Ethereum-app model), manual (valid / malformed DER)}, a "
+        "stranger / same authoriser again), eth (Ethereum-app model), manual (valid / malformed DER)} - key "
+        "and eth steps with or without the -a / -i options repeated (same app, another app, another "
+        "iteration) -, a "
         "save-load-save cycle, one authorisation object taken through 0..3 add_signature operations (valid "
         "/ malformed) against a list model, then `adm_ledger authorize_signer` against a UI model with n "
         "authorisers "
@@ -152,11 +154,18 @@ def run_one(ch, cfg):
     digest = ref_digest(app_hash, it_val)
     expected_sigs = []          # (sig_hex, signer index or None)
     nsteps = ch.draw(7, "signing-steps")
+    other_areas = hexfile.gen_areas(ch, max_areas=2)
+    w.fs.put("/simfs/other.hex", hexfile.write(ch, other_areas))
     for si in range(nsteps):
         kind = ch.weighted([(4, "key-authoriser"), (1, "key-stranger"), (1, "key-repeat"),
                             (2, "eth"), (1, "manual-valid"), (1, "manual-malformed"),
                             (1, "key-malformed")], "step")
         before = A_load(w, AUTH)
+        # a signatory may repeat the whole command line of `signapp message` (-a / -i): the file that
+        # is being added to says which signer version is authorised, and that is what gets signed
+        appargs = [[], ["-a", "/simfs/signer.hex", "-i", it_str], ["-a", "/simfs/other.hex", "-i", it_str],
+                   ["-a", "/simfs/signer.hex", "-i", str((it_val + 1) % 65536)]][
+            ch.weighted([(5, 0), (1, 1), (1, 2), (1, 3)], "step.app-args")]
         if kind in ("key-authoriser", "key-stranger", "key-repeat"):
             if kind == "key-authoriser":
                 idx = ch.draw(nauth, "which-authoriser")
@@ -167,7 +176,7 @@ def run_one(ch, cfg):
             else:
                 idx, k = None, stranger
             keyarg = k.priv.hex() if ch.draw(2, "key-uppercase") == 0 else k.priv.hex().upper()
-            st, out = w.run_tool(signapp.main, ["signapp.py", "key", "-o", AUTH, "-k", keyarg])
+            st, out = w.run_tool(signapp.main, ["signapp.py", "key", "-o", AUTH, "-k", keyarg] + appargs)
             after = A_load(w, AUTH)
             if st != 0 or after is None or len(after["signatures"]) != len(before["signatures"]) + 1:
                 viol.append(("tools/key-signing-failed", "exit %s: %s" % (st, out[-200:])))
@@ -179,7 +188,7 @@ def run_one(ch, cfg):
             expected_sigs.append((sig, idx))
         elif kind == "eth":
             dev.mode = MODE_ETH
-            st, out = w.run_tool(signapp.main, ["signapp.py", "eth", "-o", AUTH, "-p", ETH_PATH])
+            st, out = w.run_tool(signapp.main, ["signapp.py", "eth", "-o", AUTH, "-p", ETH_PATH] + appargs)
             dev.mode = L.MODE_BOOTLOADER
             after = A_load(w, AUTH)
             if st != 0 or after is None or len(after["signatures"]) != len(before["signatures"]) + 1:
